@@ -25,7 +25,7 @@ namespace {
 enum Kind { K_VECTOR = 0, K_LIST, K_TREE, K_HASH, K_LTBL, K_NKIND };
 const char *kname(int k) { static const char *n[] = {"qvector", "qlist", "qtreetbl", "qhashtbl", "qlisttbl"}; return n[k]; }
 struct Op { int code; std::string key, val; };
-struct Prog { int kind; std::vector<std::string> init; std::vector<std::vector<Op>> thr; bool unique = false; size_t limit = 0; int wrap = 0; };   // wrap (K_LIST only): 0 qlist, 1 qqueue, 2 qstack - elements are int64 numbers there
+struct Prog { int kind; std::vector<std::string> init; std::vector<std::vector<Op>> thr; bool unique = false; size_t limit = 0; int wrap = 0; size_t hrange = 3; };   // hrange (K_HASH only): table range; wrap (K_LIST only): 0 qlist, 1 qqueue, 2 qstack - elements are int64 numbers there
 
 const char *kname(const Prog &p) { return p.kind == K_LIST && p.wrap == 1 ? "qqueue" : p.kind == K_LIST && p.wrap == 2 ? "qstack" : kname(p.kind); }
 const char *opname(int kind, int code) {
@@ -328,7 +328,7 @@ void *create(const Prog &p) {
             if (p.wrap == 2) { qstack_t *q = qstack(QSTACK_THREADSAFE); if (q && p.limit) qstack_setsize(q, p.limit); return q; }
             qlist_t *l = qlist(QLIST_THREADSAFE); if (l && p.limit) qlist_setsize(l, p.limit); return l; }
         case K_TREE: return qtreetbl(QTREETBL_THREADSAFE);
-        case K_HASH: return qhashtbl(3, QHASHTBL_THREADSAFE);
+        case K_HASH: return qhashtbl(p.hrange, QHASHTBL_THREADSAFE);
         default: return qlisttbl(QLISTTBL_THREADSAFE | (p.unique ? QLISTTBL_UNIQUE : 0));
     }
 }
@@ -457,6 +457,7 @@ Prog gen_prog(Src &s) {
     p.kind = (int)s.pick({4, 3, 2, 2, 3});
     p.unique = p.kind == K_LTBL && s.boolean();
     int ninit = (int)s.range(0, 3);
+    if (p.kind == K_HASH) { static const size_t hr[] = {3, 3, 3, 3, 3, 3, 1, 2048}; p.hrange = hr[s.range(0, 7)]; }   // also tables of thousands of slots (sweeps over the whole range: clear, walks)
     if (p.kind == K_LIST && s.chance(1, 3)) { p.limit = (size_t)s.range(1, 3); if ((size_t)ninit > p.limit) ninit = (int)p.limit; }
     if (p.kind == K_LIST) p.wrap = (int)s.pick({3, 2, 2});
     for (int i = 0; i < ninit; i++) p.init.push_back(p.wrap ? std::to_string(900 + i) : "i" + std::to_string(i));
